@@ -218,6 +218,14 @@ func vxTraceMark(s string) {
 	panic("vxTraceMark: environment-model function, not available in native replay")
 }
 
+func vxRaceLog(on bool) {
+	panic("vxRaceLog: environment-model function, not available in native replay")
+}
+
+func vxRaceAnalyse() int {
+	panic("vxRaceAnalyse: environment-model function, not available in native replay")
+}
+
 func vxYield() {
 	
 }
